@@ -40,11 +40,15 @@
      so it is a property of the archive's content; re-creating the solid entry is a parameter `rebuild` in C14_transform_wf_partial and the
      pipeline's SolidEntryBuilder in C14_transform_wf_pipeline_partial; append/update/concat of the
      CLI are covered only through C14_rewrite_wf (re-writing decoded entries) and the check;
-   * the hypotheses `writable` / `writable_spec` / `strict_ctx` / `small_pieces` are premises: that the
+   * the hypotheses `writable` / `writable_spec` / `strict_ctx` are premises: that the
      CLI only produces such inputs (sanitised non-empty names, PHC strings from the password-hash crate,
-     writes below 2^32 bytes, owner names <= 255 bytes) is covered by running the recogniser on
+     owner names <= 255 bytes) is covered by running the recogniser on
      everything the CLI writes (two violations were found that way and repaired in /repo: the empty entry
-     name of `create -r . --keep-dir` and --uname/--gname longer than 255 bytes). *)
+     name of `create -r . --keep-dir` and --uname/--gname longer than 255 bytes).
+   * NO premise on the size of writes or data payloads: `small_pieces` (every write that reaches a chunk sink below 2^32
+     bytes), `compress_small` and the data clause of `writable_normal` were premises until fix 45407aa2; the three
+     cutters (ChunkStreamWriter::write, FlattenWriter, into_chunks) are now in the model for every length
+     (Props/C14_sink.v: every emitted chunk has at most u32::MAX payload bytes, its length field is exact). *)
 From PNA Require Import Base Codec Chunk Archive Entry Cbc CliCodec Pipeline Wf WfFacts ArchiveFacts EntryFacts CbcFacts WfWriterFacts WfAgreeFacts WfSplitFacts WfPipelineFacts WfRewriteFacts WfTransformFacts.
 From PNA Require Split Transform.
 
@@ -248,7 +252,7 @@ Print Assumptions C14_split_wf_satisfiable.
 Theorem C14_pipeline_writer_wf :
   forall (E : encryption -> bytes -> bytes -> bytes) (compress : compression -> N -> list bytes -> list bytes),
   (forall (a : encryption) (k b : bytes), len16 b -> len16 (E a k b)) ->
-  forall jobs : list wjob, Forall (job_ok E compress) jobs ->
+  forall jobs : list wjob, Forall (job_ok) jobs ->
   wf_archive (write_raw_archive 0 (map (job_chunks E compress) jobs)) = true /\
   strict_decode (write_raw_archive 0 (map (job_chunks E compress) jobs)) = Ok (map (job_entry E compress) jobs) /\
   entries read_chunk_stream (write_raw_archive 0 (map (job_chunks E compress) jobs)) = Ok (map (job_entry E compress) jobs, FinOk).
@@ -256,7 +260,7 @@ Proof. exact pipeline_writer_wf. Qed.
 Check C14_pipeline_writer_wf :
   forall (E : encryption -> bytes -> bytes -> bytes) (compress : compression -> N -> list bytes -> list bytes),
   (forall (a : encryption) (k b : bytes), len16 b -> len16 (E a k b)) ->
-  forall jobs : list wjob, Forall (job_ok E compress) jobs ->
+  forall jobs : list wjob, Forall (job_ok) jobs ->
   wf_archive (write_raw_archive 0 (map (job_chunks E compress) jobs)) = true /\
   strict_decode (write_raw_archive 0 (map (job_chunks E compress) jobs)) = Ok (map (job_entry E compress) jobs) /\
   entries read_chunk_stream (write_raw_archive 0 (map (job_chunks E compress) jobs)) = Ok (map (job_entry E compress) jobs, FinOk).
@@ -267,7 +271,6 @@ Theorem C14_build_normal_writable :
   (forall (a : encryption) (k b : bytes), len16 b -> len16 (E a k b)) ->
   forall (cfg : config) (ctx : cctx) (sp : spec) (wcuts : list bytes),
   writable_spec sp -> strict_ctx ctx -> len (concat wcuts) < 2 ^ 128 ->
-  small_pieces E compress (eff_cfg cfg (sp_kind sp)) ctx (eff_wcuts (sp_kind sp) wcuts) ->
   writable_normal (build_normal E compress cfg ctx sp wcuts).
 Proof. exact build_normal_writable. Qed.
 Check C14_build_normal_writable :
@@ -275,7 +278,6 @@ Check C14_build_normal_writable :
   (forall (a : encryption) (k b : bytes), len16 b -> len16 (E a k b)) ->
   forall (cfg : config) (ctx : cctx) (sp : spec) (wcuts : list bytes),
   writable_spec sp -> strict_ctx ctx -> len (concat wcuts) < 2 ^ 128 ->
-  small_pieces E compress (eff_cfg cfg (sp_kind sp)) ctx (eff_wcuts (sp_kind sp) wcuts) ->
   writable_normal (build_normal E compress cfg ctx sp wcuts).
 Print Assumptions C14_build_normal_writable.
 
@@ -283,14 +285,14 @@ Theorem C14_build_writer_wf :
   forall (E : encryption -> bytes -> bytes -> bytes) (compress : compression -> N -> list bytes -> list bytes),
   (forall (a : encryption) (k b : bytes), len16 b -> len16 (E a k b)) ->
   forall js : list (config * cctx * spec * list bytes),
-  Forall (fun '(cfg, ctx, sp, wcuts) => job_ok E compress (JBuild cfg ctx sp wcuts)) js ->
+  Forall (fun '(cfg, ctx, sp, wcuts) => job_ok (JBuild cfg ctx sp wcuts)) js ->
   wf_archive (write_archive (map (fun '(cfg, ctx, sp, wcuts) => build_normal E compress cfg ctx sp wcuts) js)) = true.
 Proof. exact build_writer_wf. Qed.
 Check C14_build_writer_wf :
   forall (E : encryption -> bytes -> bytes -> bytes) (compress : compression -> N -> list bytes -> list bytes),
   (forall (a : encryption) (k b : bytes), len16 b -> len16 (E a k b)) ->
   forall js : list (config * cctx * spec * list bytes),
-  Forall (fun '(cfg, ctx, sp, wcuts) => job_ok E compress (JBuild cfg ctx sp wcuts)) js ->
+  Forall (fun '(cfg, ctx, sp, wcuts) => job_ok (JBuild cfg ctx sp wcuts)) js ->
   wf_archive (write_archive (map (fun '(cfg, ctx, sp, wcuts) => build_normal E compress cfg ctx sp wcuts) js)) = true.
 Print Assumptions C14_build_writer_wf.
 
@@ -298,14 +300,14 @@ Theorem C14_stream_file_accepted :
   forall (E : encryption -> bytes -> bytes -> bytes) (compress : compression -> N -> list bytes -> list bytes),
   (forall (a : encryption) (k b : bytes), len16 b -> len16 (E a k b)) ->
   forall (cfg : config) (ctx : cctx) (sp : spec) (wcuts : list bytes),
-  writable_spec sp -> strict_ctx ctx -> small_pieces E compress cfg ctx wcuts ->
+  writable_spec sp -> strict_ctx ctx ->
   accepted_as (stream_file_chunks E compress cfg ctx sp wcuts) (RNormal (streamed_normal E compress cfg ctx sp wcuts)).
 Proof. exact stream_file_accepted. Qed.
 Check C14_stream_file_accepted :
   forall (E : encryption -> bytes -> bytes -> bytes) (compress : compression -> N -> list bytes -> list bytes),
   (forall (a : encryption) (k b : bytes), len16 b -> len16 (E a k b)) ->
   forall (cfg : config) (ctx : cctx) (sp : spec) (wcuts : list bytes),
-  writable_spec sp -> strict_ctx ctx -> small_pieces E compress cfg ctx wcuts ->
+  writable_spec sp -> strict_ctx ctx ->
   accepted_as (stream_file_chunks E compress cfg ctx sp wcuts) (RNormal (streamed_normal E compress cfg ctx sp wcuts)).
 Print Assumptions C14_stream_file_accepted.
 
@@ -313,14 +315,14 @@ Theorem C14_build_solid_writable :
   forall (E : encryption -> bytes -> bytes -> bytes) (compress : compression -> N -> list bytes -> list bytes),
   (forall (a : encryption) (k b : bytes), len16 b -> len16 (E a k b)) ->
   forall (cfg : config) (ctx : cctx) (extra : list chunk) (swcuts : list bytes),
-  strict_ctx ctx -> Forall sextra_ok extra -> small_pieces E compress cfg ctx swcuts -> plain_inner cfg swcuts ->
+  strict_ctx ctx -> Forall sextra_ok extra -> plain_inner cfg swcuts ->
   writable_solid (build_solid E compress cfg ctx extra swcuts).
 Proof. exact build_solid_writable. Qed.
 Check C14_build_solid_writable :
   forall (E : encryption -> bytes -> bytes -> bytes) (compress : compression -> N -> list bytes -> list bytes),
   (forall (a : encryption) (k b : bytes), len16 b -> len16 (E a k b)) ->
   forall (cfg : config) (ctx : cctx) (extra : list chunk) (swcuts : list bytes),
-  strict_ctx ctx -> Forall sextra_ok extra -> small_pieces E compress cfg ctx swcuts -> plain_inner cfg swcuts ->
+  strict_ctx ctx -> Forall sextra_ok extra -> plain_inner cfg swcuts ->
   writable_solid (build_solid E compress cfg ctx extra swcuts).
 Print Assumptions C14_build_solid_writable.
 
@@ -328,14 +330,14 @@ Theorem C14_solid_archive_accepted :
   forall (E : encryption -> bytes -> bytes -> bytes) (compress : compression -> N -> list bytes -> list bytes),
   (forall (a : encryption) (k b : bytes), len16 b -> len16 (E a k b)) ->
   forall (cfg : config) (ctx : cctx) (swcuts : list bytes),
-  strict_ctx ctx -> small_pieces E compress cfg ctx swcuts -> plain_inner cfg swcuts ->
+  strict_ctx ctx -> plain_inner cfg swcuts ->
   accepted_as (solid_archive_chunks E compress cfg ctx swcuts) (RSolid (streamed_solid E compress cfg ctx swcuts)).
 Proof. exact solid_archive_accepted. Qed.
 Check C14_solid_archive_accepted :
   forall (E : encryption -> bytes -> bytes -> bytes) (compress : compression -> N -> list bytes -> list bytes),
   (forall (a : encryption) (k b : bytes), len16 b -> len16 (E a k b)) ->
   forall (cfg : config) (ctx : cctx) (swcuts : list bytes),
-  strict_ctx ctx -> small_pieces E compress cfg ctx swcuts -> plain_inner cfg swcuts ->
+  strict_ctx ctx -> plain_inner cfg swcuts ->
   accepted_as (solid_archive_chunks E compress cfg ctx swcuts) (RSolid (streamed_solid E compress cfg ctx swcuts)).
 Print Assumptions C14_solid_archive_accepted.
 
@@ -349,10 +351,10 @@ Check C14_accepted_archive :
 Print Assumptions C14_accepted_archive.
 
 Theorem C14_pipeline_satisfiable :
-  Forall (job_ok toy_E_of id_compress) ex_jobs.
+  Forall (job_ok) ex_jobs.
 Proof. exact ex_jobs_ok. Qed.
 Check C14_pipeline_satisfiable :
-  Forall (job_ok toy_E_of id_compress) ex_jobs.
+  Forall (job_ok) ex_jobs.
 Print Assumptions C14_pipeline_satisfiable.
 
 Theorem C14_pipeline_cipher_satisfiable :
@@ -470,20 +472,20 @@ Theorem C14_rebuild_solid_writable :
   forall (E : encryption -> bytes -> bytes -> bytes) (compress : compression -> N -> list bytes -> list bytes),
   (forall (a : encryption) (k b : bytes), len16 b -> len16 (E a k b)) ->
   forall (cfg : config) (ctx : cctx) (extra : list chunk) (inner : list normal_entry),
-  compress_small compress -> strict_ctx ctx -> Forall sextra_ok extra -> Forall writable_normal inner ->
+  strict_ctx ctx -> Forall sextra_ok extra -> Forall writable_normal inner ->
   writable_solid (build_solid E compress cfg ctx extra (solid_writes inner)).
 Proof. exact rebuild_solid_writable. Qed.
 Check C14_rebuild_solid_writable :
   forall (E : encryption -> bytes -> bytes -> bytes) (compress : compression -> N -> list bytes -> list bytes),
   (forall (a : encryption) (k b : bytes), len16 b -> len16 (E a k b)) ->
   forall (cfg : config) (ctx : cctx) (extra : list chunk) (inner : list normal_entry),
-  compress_small compress -> strict_ctx ctx -> Forall sextra_ok extra -> Forall writable_normal inner ->
+  strict_ctx ctx -> Forall sextra_ok extra -> Forall writable_normal inner ->
   writable_solid (build_solid E compress cfg ctx extra (solid_writes inner)).
 Print Assumptions C14_rebuild_solid_writable.
 
 Theorem C14_transform_wf_pipeline_partial :
   forall (E : encryption -> bytes -> bytes -> bytes) (compress : compression -> N -> list bytes -> list bytes),
-  (forall (a : encryption) (k b : bytes), len16 b -> len16 (E a k b)) -> compress_small compress ->
+  (forall (a : encryption) (k b : bytes), len16 b -> len16 (E a k b)) ->
   forall (hdr_tok content_tok : normal_entry -> bytes) (expand : solid_entry -> res (list normal_entry)),
   (forall (s : solid_entry) (inner : list normal_entry), writable_solid s -> expand s = Ok inner -> Forall writable_normal inner) ->
   forall (lvl : N) (ctx : cctx), strict_ctx ctx ->
@@ -494,7 +496,7 @@ Theorem C14_transform_wf_pipeline_partial :
 Proof. exact transform_wf_pipeline. Qed.
 Check C14_transform_wf_pipeline_partial :
   forall (E : encryption -> bytes -> bytes -> bytes) (compress : compression -> N -> list bytes -> list bytes),
-  (forall (a : encryption) (k b : bytes), len16 b -> len16 (E a k b)) -> compress_small compress ->
+  (forall (a : encryption) (k b : bytes), len16 b -> len16 (E a k b)) ->
   forall (hdr_tok content_tok : normal_entry -> bytes) (expand : solid_entry -> res (list normal_entry)),
   (forall (s : solid_entry) (inner : list normal_entry), writable_solid s -> expand s = Ok inner -> Forall writable_normal inner) ->
   forall (lvl : N) (ctx : cctx), strict_ctx ctx ->
